@@ -676,6 +676,29 @@ func Exec(sc *Scenario) *Run {
 	} else {
 		r.Quiescent = true
 	}
+	// The reconnect goroutine pushes its Resubscribe/Retry tasks a few instructions after Connect
+	// returned; if it is descheduled exactly there, both sentinels can complete first. For runs with
+	// subscriptions the end state is therefore taken only once the trace has been still for a moment.
+	hasSubs := false
+	for _, l := range [][]Step{sc.Pre, sc.Steps, sc.SteerSteps} {
+		for _, st := range l {
+			if st.Op == "sub" || st.Op == "unsub" {
+				hasSubs = true
+			}
+		}
+	}
+	if hasSubs && r.Quiescent {
+		last := -1
+		for i := 0; i < 50; i++ {
+			n := tr.Len()
+			st := retry.Stats()
+			if n == last && st.QueuedTasks == 0 && st.QueuedRetries == 0 {
+				break
+			}
+			last = n
+			time.Sleep(1500 * time.Microsecond)
+		}
+	}
 	r.StatsEnd = retry.Stats()
 	tr.Mu.Lock()
 	r.EndSeq = len(tr.Events)
